@@ -50,7 +50,7 @@ type Data struct {
 	FromLibrary bool `json:"from_library,omitempty"`
 	offOverride *int
 	eofOverride bool
-	altText     *string // run this text instead (metamorphic variants)
+	altText     *string        // run this text instead (metamorphic variants)
 	Plan        simio.ReadPlan `json:"plan"`
 	PlanClass   string         `json:"plan_class,omitempty"`
 }
@@ -741,6 +741,11 @@ func (Prop) RunUnit(env *kernel.Env, unit int) {
 			}
 			for _, p := range indents {
 				cs = append(cs, Corruption{Kind: "insert", Pos: p, Bytes: "\t", Off: 0})
+			}
+			for _, p := range spec.ValueEnds() {
+				// a second mapping value on the line: the offending byte follows the scalar directly,
+				// multi-byte characters included
+				cs = append(cs, Corruption{Kind: "insert", Pos: p, Bytes: ": x", Off: 0})
 			}
 			if len(text) > 0 {
 				cs = append(cs, Corruption{Kind: "insert", Pos: r.Intn(len(text)), Bytes: "\x01", Off: 0})
